@@ -9,11 +9,14 @@ TEMPLATE = r'''
 typedef struct Self Self; typedef struct Ctx StylesheetExecutionContext; typedef struct List MutableNodeRefList; typedef struct XalanNode XalanNode;
 /* ghost: two arbitrary witness indices: g_w into the selected list / unsorted entries, g_v into the sorted entries / rebuilt list */
 size_t g_nkeys, g_len0; size_t g_w, g_v; const XalanNode* g_item_w; size_t g_scratch_size; const XalanNode* g_scr_w_node; size_t g_scr_w_pos;
-bool g_sorted; const XalanNode* g_sorted_v_node; size_t g_list_len; const XalanNode* g_out_v; bool g_cleared;
+bool g_sorted; bool g_guarded; const XalanNode* g_sorted_v_node; size_t g_list_len; const XalanNode* g_out_v; bool g_cleared;
 size_t xv_list_length(const MutableNodeRefList* l) __CPROVER_requires(1) __CPROVER_assigns() __CPROVER_ensures(__CPROVER_return_value == g_list_len) ;
 const XalanNode* xv_list_item(const MutableNodeRefList* l, size_t i)
 __CPROVER_requires(/* items are read inside the list, before it is cleared */ i < g_list_len && g_cleared == false) __CPROVER_assigns()
 __CPROVER_ensures(__CPROVER_return_value != 0 && (i == g_w ==> __CPROVER_return_value == g_item_w)) ;
+/* CollectionClearGuard<NodeVectorType> guard(m_scratchVector): clears the scratch vector on EVERY exit, also when a sort key throws */
+void xv_guard_scratch(void) __CPROVER_requires(g_scratch_size == 0) __CPROVER_assigns(g_guarded) __CPROVER_ensures(g_guarded == true) ;
+void xv_scratch_clear(void) __CPROVER_requires(1) __CPROVER_assigns() __CPROVER_ensures(1) ;   /* an explicit clear() runs on the normal path only */
 void xv_scratch_push(const XalanNode* n, size_t pos)
 __CPROVER_requires(n != 0 && g_sorted == false)
 __CPROVER_requires(/* the position recorded with a node is its index in the selected list (and in the vector being filled) */ pos == g_scratch_size)
@@ -22,6 +25,7 @@ __CPROVER_ensures(g_scratch_size == __CPROVER_old(g_scratch_size) + 1 && (__CPRO
 /* NodeSorter::sort(executionContext): std::stable_sort of the entries with NodeSortKeyCompare (unit c16_compare) */
 void xv_stable_sort(Self* self)
 __CPROVER_requires(g_sorted == false && /* exactly the selected nodes are sorted */ g_scratch_size == g_len0)
+__CPROVER_requires(/* sort keys can throw (run-time XPath errors): the nodes copied into the long-lived scratch vector are under a guard that clears it on every exit (C06: nothing is left behind for the next transformation) */ g_guarded == true)
 __CPROVER_requires(/* every entry handed to the sort is (node at p, p) */ g_w < g_len0 ==> (g_scr_w_node == g_item_w && g_scr_w_pos == g_w))
 __CPROVER_assigns(g_sorted) __CPROVER_ensures(g_sorted == true) ;
 void xv_list_clear(MutableNodeRefList* l) __CPROVER_requires(g_sorted == true) __CPROVER_assigns(g_list_len, g_cleared) __CPROVER_ensures(g_list_len == 0 && g_cleared == true) ;
@@ -35,14 +39,15 @@ __CPROVER_ensures(g_list_len == __CPROVER_old(g_list_len) + 1 && (__CPROVER_old(
 void h_sortList(void)
 {
     size_t nk, n, w, v, sp; const XalanNode *a, *b, *c, *d;
-    g_nkeys = nk; g_len0 = n; g_list_len = n; g_w = w; g_v = v; g_item_w = a; g_scratch_size = 0; g_scr_w_node = b; g_scr_w_pos = sp; g_sorted = false; g_sorted_v_node = c; g_out_v = d; g_cleared = false;
+    g_nkeys = nk; g_len0 = n; g_list_len = n; g_w = w; g_v = v; g_item_w = a; g_scratch_size = 0; g_scr_w_node = b; g_scr_w_pos = sp; g_sorted = false; g_guarded = false; g_sorted_v_node = c; g_out_v = d; g_cleared = false;
     sortList(0, 0, 0);
 }
 '''
 R = [(r'm_keys\.empty\(\) == false', '(g_nkeys != 0)', 1),
      (r'const NodeRefListBase::size_type\s+theLength = theList\.getLength\(\);', 'const size_t theLength = xv_list_length(theList);', 1),
      (r'assert\(m_scratchVector\.empty\(\) == true\);', 'assert(g_scratch_size == 0);', 1),
-     (r'CollectionClearGuard<NodeVectorType>\s+guard\(m_scratchVector\);', '', 1),
+     (r'CollectionClearGuard<NodeVectorType>\s+guard\(m_scratchVector\);', 'xv_guard_scratch();', (0, 1)),
+     (r'm_scratchVector\.clear\(\);', 'xv_scratch_clear();', (0, 2)),
      (r'm_scratchVector\.reserve\(theLength\);', '', 1),
      (r'NodeRefListBase::size_type\s+i = 0;', 'size_t i = 0;', 1),
      (r'm_scratchVector\.push_back\(NodeVectorType::value_type\(theList\.item\((\w+)\), (\w+)\)\);', r'xv_scratch_push(xv_list_item(theList, \1), \2);', 1),
@@ -51,10 +56,10 @@ R = [(r'm_keys\.empty\(\) == false', '(g_nkeys != 0)', 1),
      (r'theList\.clear\(\);', 'xv_list_clear(theList);', (0, 1)),
      (r'theList\.addNode\(m_scratchVector\[(\w+)\]\.m_node\);', r'xv_list_add(theList, xv_scratch_node(\1));', 1),
      (r'assert\(theList\.getLength\(\) == theLength\);', 'assert(xv_list_length(theList) == theLength);', 1)]
-GH = 'g_scratch_size, g_scr_w_node, g_scr_w_pos, g_sorted, g_list_len, g_out_v, g_cleared'
+GH = 'g_scratch_size, g_scr_w_node, g_scr_w_pos, g_sorted, g_list_len, g_out_v, g_cleared, g_guarded'
 UNIT = Unit(
     name='c16_sortlist',
-    props=['C16'],
+    props=['C16', 'C06'],
     functions=[Fn(NS, r'^NodeSorter::sort\(\s*StylesheetExecutionContext&\s+executionContext,\s*MutableNodeRefList&\s+theList\)', 'sortList',
                   'void sortList(Self* self, StylesheetExecutionContext* executionContext, MutableNodeRefList* theList)', rules=R, nloops=2,
                   loops={0: '''__CPROVER_assigns(i, g_scratch_size, g_scr_w_node, g_scr_w_pos)
@@ -65,15 +70,16 @@ __CPROVER_decreases(theLength - i)''',
 __CPROVER_loop_invariant(i <= theLength && g_list_len == i && g_sorted == true && g_cleared == true && g_scratch_size == theLength)
 __CPROVER_loop_invariant(/* the list rebuilt so far holds the nodes of the sorted entries in order */ i > g_v ==> g_out_v == g_sorted_v_node)
 __CPROVER_decreases(theLength - i)'''},
-                  contract='''__CPROVER_requires(g_list_len == g_len0 && g_len0 <= ((size_t)1 << 40) && g_scratch_size == 0 && g_sorted == false && g_cleared == false)
+                  contract='''__CPROVER_requires(g_list_len == g_len0 && g_len0 <= ((size_t)1 << 40) && g_scratch_size == 0 && g_sorted == false && g_cleared == false && g_guarded == false)
 __CPROVER_assigns(''' + GH + ''')
 __CPROVER_ensures(/* without sort keys the list is left as selected */ g_nkeys == 0 ==> (g_sorted == false && g_cleared == false && g_list_len == g_len0))
 __CPROVER_ensures(/* with keys: sorted once, and the list has one node per selected node, the k-th being the node of the k-th sorted entry */
     g_nkeys != 0 ==> (g_sorted == true && g_list_len == g_len0 && (g_v < g_len0 ==> g_out_v == g_sorted_v_node)))''')],
     template=TEMPLATE,
-    jobs=[Job('sortList', 'h_sortList', enforce=['sortList'], replace=['xv_list_length', 'xv_list_item', 'xv_scratch_push', 'xv_stable_sort', 'xv_list_clear', 'xv_scratch_node', 'xv_list_add'],
+    jobs=[Job('sortList', 'h_sortList', enforce=['sortList'], replace=['xv_guard_scratch', 'xv_scratch_clear', 'xv_list_length', 'xv_list_item', 'xv_scratch_push', 'xv_stable_sort', 'xv_list_clear', 'xv_scratch_node', 'xv_list_add'],
               loop_contracts=True, reach='all', timeout=300, min_obligations=8)],
     mutants=[
+        Mutant('guard_replaced_by_clear', NS, r'CollectionClearGuard<NodeVectorType>    guard\(m_scratchVector\);', '', expect='guard'),
         Mutant('position_constant', NS, r'value_type\(theList\.item\(i\), i\)\);', 'value_type(theList.item(i), 0));', expect='position recorded with a node'),
         Mutant('copy_out_off_by_one', NS, r'(theList\.clear\(\);\s*for \()i = 0(; i < theLength; \+\+i\))', r'\g<1>i = 1\2', expect=None),
         Mutant('list_not_cleared', NS, r'\n        theList\.clear\(\);\n', '\n', expect=None),
